@@ -237,6 +237,35 @@ PROPS = {
                    "every acknowledged record is completely in its file at its offset. Tie: the workload runs in a child under strace and the traced openat/write/fsync/close/rename/acknowledgement sequence must equal the model's log; every crash state of the trace (effect boundaries and bytes inside writes) is judged by an independent scanner; three real SIGKILLs per case at byte budgets inside records are judged on the real directory",
         level_note="Trusted: Lean kernel, strace, the harness' trace parser and scanner. Modelled by hand: the order of file-system calls in warcfile.go (createFile, writeRecord, createWarcInfoRecord, close).",
     ),
+    "C10": dict(
+        title="Write, Rotate and Close always return (no deadlock, no lost wake-up)",
+        lean_modules=["Gowarc.Props.C10", "Gowarc.Props.C10skel"],
+        audit_namespaces=["Gowarc.Props.C10"],
+        n_quick=400, n_thorough=6000,
+        required_theorems=["C10_no_stuck", "C10_measure", "C10_bounded", "C10_all_return", "C10_maximal_finished", "C10_after_close", "C10_write_after_close", "C10_skeleton", "step_inv", "reach_inv"],
+        model_assumptions=["Go's unbuffered channels, close(), select and sync.Mutex / WaitGroup are the model's rendezvous, flags, choice, exclusion and 'all workers ended'",
+                           "the per-file critical section (lock, fit test, append, unlock) is one step: it takes one lock, never nests (after fix 9de3e02) and always releases; a marshaler or name generator that blocks forever is outside the statement",
+                           "exit(v,false): close(closed); close(jobs) is one step of the model (no goroutine can be blocked by the state between the two)",
+                           "the tie is the regenerated synchronisation skeleton (C10_skeleton): every channel operation, select, close, lock, wait-group operation, goroutine start and protocol call of warcfile.go in order; real schedules are sampled and steered by the harness, not enumerated"],
+        design_ref="DESIGN.md section 5, C09/C10",
+        level_text="Labelled transition system of the writer's goroutine protocol (n callers with arbitrary programs of Write/Rotate/Close, dispatcher, k workers, rendezvous channels, closed flags, wait group) with a reachable-state invariant; theorems for ALL n, k >= 1, programs and interleavings: no reachable state with an unfinished call is stuck, "
+                   "every step decreases an explicit natural measure (so every execution is finite and every maximal one ends with all calls returned, no fairness assumed), when Close returns all workers have ended and the writer stays closed, a later Write returns nil in one step. Tie: skeleton translator + theorem C10_skeleton; "
+                   "search/validation: real goroutines with a gating marshaler under steered schedules (Close during a write, job parked in the dispatcher then Close, Write racing Close, double/concurrent Close, Rotate during a half-written record, continuation records) and random ones, with a watchdog",
+        level_note="Trusted: Lean kernel, the go/ast skeleton extractor, Go's channel/mutex semantics. Modelled by hand: Proto from the skeleton of warcfile.go.",
+    ),
+    "C09": dict(
+        title="Concurrent writing never loses, duplicates, tears or misplaces records",
+        lean_modules=["Gowarc.Props.C09", "Gowarc.Props.C10skel"],
+        audit_namespaces=["Gowarc.Props.C09"],
+        n_quick=400, n_thorough=6000,
+        required_theorems=["C09_exactly_once", "C09_responded_written", "C09_nil_nothing", "C09_single_holder", "C09_skeleton", "step_loginv", "reach_loginv", "results_mono"],
+        model_assumptions=["as C10; the file-level clauses (intact at the reported offset, whole records, one file per record) are those of the sequential writer each worker is (C04, C13), under the worker's own lock",
+                           "'the records of one Write lie contiguously in one file' is judged when all its responses name the same file: a size rotation or a concurrent Rotate between two records of a batch moves the rest to the next file (documented: 'if size permits')"],
+        design_ref="DESIGN.md section 5, C09/C10",
+        level_text="Same protocol model as C10 with a ghost log of what each worker wrote and what each Write returned; theorems for ALL n, k, programs and interleavings: no job is written twice and a job is in the hands of at most one goroutine (linear token), a Write that returned responses had its job written, a Write that returned nil has written nothing and never will. "
+                   "Tie: skeleton theorem C09_skeleton; validation and search: real goroutines under steered and random schedules, files read by the independent scanner: exactly once, at the reported file and offset, batches adjacent and in order, whole files, nothing on disk without a response",
+        level_note="Trusted: Lean kernel, the go/ast skeleton extractor, Go's channel/mutex semantics, the harness' scanner. Modelled by hand: Proto.",
+    ),
 }
 
 
